@@ -10,6 +10,35 @@ REVIEWED_PATH = os.path.join(VERIF, 'tables', 'reviewed_safe.json')
 FLOORS_PATH = os.path.join(VERIF, 'tables', 'floors.json')
 
 
+_KEEP = {'None', 'True', 'False', 'not', 'is', 'in', 'and', 'or', 'if',
+         'else', 'for', 'lambda', 'self', 'cls', 'assert', 'raise', 'return',
+         'del', 'while', 'with', 'as', 'try', 'except', 'yield', 'from',
+         'import', 'pass', 'break', 'continue', 'elif', 'def', 'class'}
+
+
+def loose_key(key):
+    """A finding key with local variable names abstracted away: identifiers
+    that are neither attribute names (after a dot), nor called names (before
+    a parenthesis), nor keywords are replaced by `_`.  Used only as the
+    fallback when matching the committed known-findings / reviewed-safe
+    tables, so that renaming a local variable does not turn a triaged site
+    into a new violation.  The rule id, the function qualname and the fact
+    stay exact."""
+    import re
+    parts = key.split('|')
+    if len(parts) < 4:
+        return key
+    rule, func, fact = parts[0], parts[1], parts[-1]
+    construct = '|'.join(parts[2:-1])
+
+    def sub(m):
+        w = m.group(0)
+        return w if w in _KEEP else '_'
+    construct = re.sub(r"(?<![\w.'\"])[A-Za-z_]\w*(?![\w]*\s*\()(?!['\"])",
+                       sub, construct)
+    return '|'.join([rule, func, construct, fact])
+
+
 class Finding:
     """A rule hit. key = rule|function qualname|normalised construct|fact;
     never contains a line number."""
@@ -134,11 +163,19 @@ class Report:
         violations = []
         known_hits = []
         reviewed_hits = []
+        rloose = {loose_key(k): k for k in rmap}
+        kloose = {loose_key(k): k for k in kmap}
         for rr in self.rules:
             for f in rr.findings:
                 if f.key in rmap:
                     reviewed_hits.append(f)
                 elif f.key in kmap:
+                    known_hits.append(f)
+                elif loose_key(f.key) in rloose:
+                    f.matched_key = rloose[loose_key(f.key)]
+                    reviewed_hits.append(f)
+                elif loose_key(f.key) in kloose:
+                    f.matched_key = kloose[loose_key(f.key)]
                     known_hits.append(f)
                 else:
                     violations.append(f)
@@ -154,13 +191,13 @@ class Report:
         # self-run (VERIF_STRICT_TABLES=1); a refactoring of /repo that
         # removes a reviewed site must not make the check fail.
         if os.environ.get('VERIF_STRICT_TABLES') == '1':
-            hit = {f.key for f in reviewed_hits}
+            hit = {getattr(f, 'matched_key', f.key) for f in reviewed_hits}
             for k in rmap:
                 if k not in hit:
                     self.error('stale reviewed_safe entry: %s' % k)
 
         for f in known_hits:
-            e = kmap[f.key]
+            e = kmap[getattr(f, 'matched_key', f.key)]
             out.append('KNOWN-FINDING: property=%s %s %s:%s [%s] %s -- %s'
                        % (self.prop, f.rule, f.file, f.line, f.func,
                           f.construct, e.get('what', f.msg)))
